@@ -204,6 +204,25 @@ pub fn perturb(l: &Layout, fi: usize) -> Vec<(String, Layout)> {
             }
         }
     }
+    // R2: the range of a native-width field (u8 / i16 / enum or nested bitfield over u8, u16, ...) resized to the
+    // neighbouring native width, the type staying what it was
+    if f.ranges.len() == 1 && matches!(w, 8 | 16 | 32 | 64) && !matches!(f.ty, FieldTy::Bool) && f.array.is_none() {
+        let lo = f.ranges[0].lo;
+        for nw in [w * 2, w / 2] {
+            if nw < 8 || nw > 128 {
+                continue;
+            }
+            let hi = lo + nw - 1;
+            if hi >= 128 {
+                continue;
+            }
+            let mut nf = f.clone();
+            nf.kw_bit = false;
+            nf.ranges[0] = Rng { lo, hi, short: false };
+            let base = if hi >= l.base_bits { Some(hi + 1) } else { None };
+            push(if nw > w { "range-to-next-native-width" } else { "range-to-previous-native-width" }, nf, base);
+        }
+    }
     // native type of the wrong size over the same range (e.g. u8 over 7 or 9 bits comes from the range variants;
     // here: the next native type)
     if let FieldTy::UNat { bits } | FieldTy::INat { bits } = &f.ty {
@@ -326,6 +345,84 @@ pub fn corpus_c09(tier: Tier, seed: u64) -> Vec<Decl> {
             bases.push(l);
         }
     }
+    // several fields of the same custom type in one declaration, in every combination of access specifiers:
+    // the second (or first) of them perturbed in width, all R2 perturbations
+    let n_random_bases = bases.len();
+    let mut pair_bases: Vec<Layout> = Vec::new();
+    for w in [1u32, 2, 3, 8, 16] {
+        for (a0, a1) in [(Access::RW, Access::W), (Access::W, Access::W), (Access::W, Access::None), (Access::None, Access::W), (Access::None, Access::None), (Access::R, Access::None), (Access::W, Access::RW), (Access::None, Access::R)] {
+            for nested in [false, true] {
+                let ty = if nested { FieldTy::Nested { idx: 0 } } else { FieldTy::Enum { idx: 0, option: w > 3 } };
+                let mut l = lay(64, vec![fld("a", 0, w, ty.clone(), a0), fld("b", 24, w, ty.clone(), a1), fld("c", 48, 4, uty(4), Access::RW)]);
+                if nested {
+                    l.inners.push(Layout { name: "I0".into(), ..lay(w, vec![fld("g0", 0, 1, FieldTy::Bool, Access::RW)]) });
+                } else {
+                    l.enums.push(small_enum("E0", w, w <= 3));
+                }
+                pair_bases.push(l);
+            }
+        }
+    }
+    for l in &pair_bases {
+        let v = layout_verdict(l);
+        if !v.is_valid() {
+            inconclusive(&format!("generator bug: pair layout not valid: {:?}\n{}", v, render_layout(l, &RenderOpts::default())));
+        }
+        out.push(Decl { layout: l.clone(), verdict: v, origin: "generated".into(), boundary: false, field: None });
+        for fi in [0usize, 1] {
+            for (name, nl) in perturb(l, fi) {
+                if !(name.starts_with("range-one") || name.starts_with("range-to")) {
+                    continue;
+                }
+                let v = layout_verdict(&nl);
+                out.push(Decl { layout: nl, verdict: v, origin: format!("same-type-pair/{}", name), boundary: true, field: Some(fi) });
+            }
+        }
+    }
+    // several array fields in one declaration (contiguous and list elements, explicit and implicit strides):
+    // each of them perturbed in its array attributes — what one field declares must not leak into the next
+    let mut array_bases: Vec<Layout> = sys_multi_arrays();
+    for b in [32u32, 64, 24] {
+        let la = |name: &str, rs: Vec<(u32, u32)>, k: u32, st: u32| Field {
+            name: name.into(),
+            kw_bit: false,
+            list: true,
+            ranges: rs.iter().map(|(lo, hi)| Rng { lo: *lo, hi: *hi, short: false }).collect(),
+            array: Some(ArrayDecl { count: k, stride: Some(st), colon: false }),
+            ty: uty(rs.iter().map(|(lo, hi)| hi - lo + 1).sum()),
+            access: Access::RW,
+            arg_order: 0,
+            opt_path: 0,
+            huge: None,
+            zero_pad: false,
+        };
+        // two list arrays, strides 4 and 2; a list array before / after a contiguous array without stride
+        array_bases.push(lay(b, vec![la("p", vec![(0, 0), (2, 2)], 2, 4), la("q", vec![(8, 8), (12, 12)], 2, 2)]));
+        let mut c = fld("c", 16, 2, uty(2), Access::RW);
+        c.array = Some(ArrayDecl { count: 2, stride: None, colon: false });
+        array_bases.push(lay(b, vec![la("p", vec![(0, 0), (2, 2)], 2, 4), c.clone()]));
+        array_bases.push(lay(b, vec![c, la("p", vec![(0, 0), (2, 2)], 2, 4), la("q", vec![(8, 8), (12, 12)], 2, 2)]));
+    }
+    for l in &array_bases {
+        let v = layout_verdict(l);
+        if !v.is_valid() {
+            inconclusive(&format!("generator bug: multi-array layout not valid: {:?}\n{}", v, render_layout(l, &RenderOpts::default())));
+        }
+        out.push(Decl { layout: l.clone(), verdict: v, origin: "generated".into(), boundary: true, field: None });
+        for fi in 0..l.fields.len() {
+            if l.fields[fi].array.is_none() {
+                continue;
+            }
+            for (name, nl) in perturb(l, fi) {
+                if !(name.starts_with("list-array") || name.starts_with("stride") || name.starts_with("array-")) {
+                    continue;
+                }
+                let v = layout_verdict(&nl);
+                out.push(Decl { layout: nl, verdict: v, origin: format!("several-arrays/{}", name), boundary: true, field: Some(fi) });
+            }
+        }
+    }
+    let _ = n_random_bases;
     let words = sample_choices(seed, 11, bases.len().max(1), 64);
     for (bi, l) in bases.iter().enumerate() {
         let v = layout_verdict(l);
